@@ -97,6 +97,17 @@ class Base(Target):
                    "names and do not look like 'stage<digits>' (a name that does is the separate shape 'stage-like-name')" % NAME_EXCL,
                    "numerals are canonical (no leading zeros): the printer never produces anything else"]
 
+    def frame(self, c, st, out):
+        # FRAME of every function of this family: the class-level table of reserved folders is left alone (a table that grows
+        # with the folders / application dependencies of one package changes how the references of the NEXT one are read)
+        cls = getattr(st, 'cls', None)
+        if cls is None or isinstance(self, ParsePrint):
+            return []
+        table = list(cls.SpecialFolders)
+        if table != list(SPECIAL) and cls is FlowIR:
+            FlowIR.SpecialFolders[:] = list(SPECIAL)          # native run on the real class: undo, this process goes on
+        return [('the-reserved-folder-table-is-not-modified', table == list(SPECIAL))]
+
     def common(self, c):
         cls = flowir_cls(c)
         kind, prod, is_comp = producer_shapes(c)
@@ -323,11 +334,17 @@ class ExpandList(Base):
         prod = c.atom('prod', 'Generate-Input_2', excludes=NAME_EXCL, distinct_from=list(RESERVED) + ['stage', ''],
                       not_stage_prefixed=True, first_not_digit=True)
         method = METHODS[c.choice('method', len(METHODS))]
-        refs = [S(prod, ':', method), S('stage', numeral(c, stage), '.', prod, '/out.txt:copy'), 'data/file.txt:copy',
-                '%s/bin/tool:ref' % APPNAMES[0], '%s/x:copy' % TOPLEVEL[0]]
+        # what the package declares: application dependencies and / or top-level folders, or neither
+        with_deps = c.one_of('package_has_application_dependencies', [True, False])
+        with_top = c.one_of('package_has_top_level_folders', [True, False])
+        refs = [S(prod, ':', method), S('stage', numeral(c, stage), '.', prod, '/out.txt:copy'), 'data/file.txt:copy']
+        if with_deps:
+            refs.append('%s/bin/tool:ref' % APPNAMES[0])
+        if with_top:
+            refs.append('%s/x:copy' % TOPLEVEL[0])
         empty = c.one_of('empty_list', [False, True])
-        return State(args=[cls, [] if empty else refs, stage, None, list(APPDEPS), list(TOPLEVEL)], cls=cls, refs=refs, stage=stage,
-                     prod=prod, method=method, empty=empty)
+        return State(args=[cls, [] if empty else refs, stage, None, list(APPDEPS) if with_deps else [], list(TOPLEVEL) if with_top else []],
+                     cls=cls, refs=refs, stage=stage, prod=prod, method=method, empty=empty)
 
     def real_function(self):
         return FlowIR.expand_component_references.__func__
@@ -339,10 +356,11 @@ class ExpandList(Base):
             return [('an-empty-list-stays-empty', list(out.value) == [])]
         got = list(out.value)
         want0 = S('stage', numeral(c, st.stage), '.', st.prod, ':', st.method)
-        return [('one-entry-per-reference-in-the-same-order', len(got) == 5),
-                ('component-references-get-their-absolute-spelling', len(got) == 5 and bool(same(got[0], want0)) and bool(same(got[1], st.refs[1]))),
+        n = len(st.refs)
+        return [('one-entry-per-reference-in-the-same-order', len(got) == n),
+                ('component-references-get-their-absolute-spelling', len(got) == n and bool(same(got[0], want0)) and bool(same(got[1], st.refs[1]))),
                 ('files-application-dependencies-and-top-level-folders-are-untouched',
-                 len(got) == 5 and got[2] == st.refs[2] and got[3] == st.refs[3] and got[4] == st.refs[4])]
+                 len(got) == n and all(got[i] == st.refs[i] for i in range(2, n)))]
 
 
 G = 'python/experiment/model/graph.py'
